@@ -419,7 +419,11 @@ class Check:
               'coverage': cov, 'assumptions': self.assumptions, 'wall_s': round(wall, 2),
               'violations': len(self.violations)}
         os.makedirs(os.path.join(VERIF, 'evidence'), exist_ok=True)
-        with open(os.path.join(VERIF, 'evidence', self.pid + '.json'), 'w') as f:
+        evpath = os.path.join(VERIF, 'evidence', self.pid + '.json')
+        if os.path.realpath(REPO) != '/repo':
+            # a trial against another checkout (seeded change in a scratch worktree): not evidence about /repo
+            evpath = os.path.join(self.replays, 'evidence_other_repo_%d.json' % os.getpid())
+        with open(evpath, 'w') as f:
             json.dump(ev, f, indent=1, default=str)
         if not self.violations and not os.environ.get('VERIF_KEEP_GEN'):
             shutil.rmtree(self.gen, ignore_errors=True)
